@@ -92,9 +92,15 @@ func checkC06(e *RunEnv) *CheckResult {
 	})
 	res.Violations = append(res.Violations, hvs...)
 	oldRejudge := res.Rejudge
+	var rerun []Violation
+	var rerunDone bool
 	res.Rejudge = func(v *Violation) []Violation {
 		if v.Case != nil {
-			return runH()
+			// the harness is deterministic: one complete second run confirms every in-module violation
+			if !rerunDone {
+				rerun, rerunDone = runH(), true
+			}
+			return rerun
 		}
 		return oldRejudge(v)
 	}
